@@ -64,7 +64,8 @@ StableSort(s, Less(_, _)) ==
 -----------------------------------------------------------------------------
 (* String order: TLC has no order on strings; keys come from this list.    *)
 
-KeyOrder == <<"a", "b", "c", "d", "e", "f", "g", "h", "p", "q", "zz">>
+\* (Python string order; "pp" / "qq": keys longer than one character)
+KeyOrder == <<"a", "b", "c", "d", "e", "f", "g", "h", "p", "pp", "q", "qq", "zz">>
 KeyRank(k) == IF InSeq(k, KeyOrder) THEN IndexOf(k, KeyOrder) ELSE 1000
 StrLess(k1, k2) == KeyRank(k1) < KeyRank(k2)
 
